@@ -101,7 +101,8 @@ pub fn evaluate(prop: &str, d: &RunData) -> (Vec<Violation>, Vec<Violation>) {
         let a = oracle::Analysis::new(d);
         let mut all = oracle::o_abort(&a);
         all.extend(crate::explain::o_explain(d).0);
-        let owned = ["explain/none", "panic/undocumented"];
+        // two channel operations that are not ordered by happens-before are not atomic with respect to each other
+        let owned = ["explain/none", "panic/undocumented", "hb/race/", "cs/"];
         return all.into_iter().partition(|x| owned.iter().any(|p| x.sig.starts_with(p)));
     }
     if prop == "C18" {
